@@ -287,6 +287,11 @@ def gen_cases(tier, seed):
             for U in ("I", "householder", "dft"):
                 for start in (0, 1, 2):
                     cases.append(dict(kind="power", n=n, spectrum=spn, U=U, start=start))
+                if n in (2, 4) and spn in ("two", "geom100"):
+                    # operators far from unit scale (largest eigenvalue below machine epsilon / very large), float32 too
+                    for scale in (1e-20, 1e-9, 1e12):
+                        for dt in ("c128", "c64"):
+                            cases.append(dict(kind="power", n=n, spectrum=spn, U=U, start=1, scale=scale, dtype=dt))
     return cases
 
 
@@ -480,9 +485,14 @@ def run_power(case):
         w[0] = 0.0   # PSD, singular
     A = (U * w) @ U.conj().T
     A = (A + A.conj().T) / 2
-    lmax = float(np.linalg.eigvalsh(A).max())
+    sc = case.get("scale", 1.0)
+    cdt = np.complex64 if case.get("dtype") == "c64" else np.complex128
+    if sc != 1.0 and cdt == np.complex64:
+        sc = {1e-20: 1e-12, 1e-9: 1e-9, 1e12: 1e12}[sc]   # stay inside float32 range after squaring norms
+    A = (sc * A).astype(cdt)
+    lmax = float(np.linalg.eigvalsh(A.astype(np.complex128)).max())
     x = {0: np.ones(n, complex), 1: (np.cos(np.arange(n) + 1.0) + 1j * np.sin(np.arange(n) * 2.0 + 0.3)),
-         2: U[:, -1] + 0.01 * np.ones(n)}[case["start"]].astype(complex).copy()
+         2: U[:, -1] + 0.01 * np.ones(n)}[case["start"]].astype(cdt).copy()
     alg = sp.alg.PowerMethod(sp.linop.MatMul([n, 1], A), x.reshape(n, 1), max_iter=30)
     xx = alg.x
     est = []
@@ -492,11 +502,12 @@ def run_power(case):
     if len(est) != 30:
         viol.append(dict(oracle="budget-exceeded", key=dict(site="alg.PowerMethod", when="loop"), detail="%d updates" % len(est)))
     for k in range(1, len(est)):
-        if k >= 2 and not est[k] >= est[k - 1] * (1 - 1e-12) - 1e-14:
+        rt = 1e-12 if cdt == np.complex128 else 2e-6
+        if k >= 2 and not est[k] >= est[k - 1] * (1 - rt) - 1e-14 * sc:
             viol.append(dict(oracle="power-monotone", key=dict(site="alg.PowerMethod", when="estimate decreased"),
                              detail="estimate fell from %.15g to %.15g at update %d | %s" % (est[k - 1], est[k], k + 1, case)))
             break
-        if not est[k] <= lmax * (1 + 1e-12) + 1e-14:
+        if not est[k] <= lmax * (1 + rt) + 1e-14 * sc:
             viol.append(dict(oracle="power-upper-bound", key=dict(site="alg.PowerMethod", when="estimate above lambda_max"),
                              detail="estimate %.15g exceeds lambda_max %.15g at update %d | %s" % (est[k], lmax, k + 1, case)))
             break
